@@ -131,13 +131,25 @@ pub fn call<R>(
     allow_dealloc: u64,
     f: impl FnOnce() -> R,
 ) -> Option<R> {
+    call_p(ctx, "C01", what, allow_alloc, allow_dealloc, f)
+}
+
+/// Like `call`, but a panic is attributed to `prop`.
+pub fn call_p<R>(
+    ctx: &mut Ctx,
+    prop: &'static str,
+    what: &'static str,
+    allow_alloc: u64,
+    allow_dealloc: u64,
+    f: impl FnOnce() -> R,
+) -> Option<R> {
     match catch(|| alloc::armed(f)) {
         Ok((r, c)) => {
             c18(ctx, what, c, allow_alloc, allow_dealloc);
             Some(r)
         }
         Err(msg) => {
-            ctx.fail("C01", "no-panic-on-contract-respecting-history", format!("{}: panic: {}", what, msg));
+            ctx.fail(prop, "no-panic-on-contract-respecting-history", format!("{}: panic: {}", what, msg));
             None
         }
     }
